@@ -121,6 +121,15 @@ CHECKS = {
         note="Trusted: TLC, the gate in harness/internal/trace; the race detector is dynamic (DESIGN.md section 8).",
         technique="TLA+ model (Pipeline.tla) checked by TLC; TLC-generated schedules replayed into the real parallel driver (race build) + trace validation + black-box differential runs",
         design="5/C11"),
+    "C14": dict(
+        text="TLC checks Files.tla: the annotation reader (type loop and function loop), the ignore reader and the checkers each iterate over the "
+             "files the filter lets through; for 7 file classes x content flags x scan-tests x exclude-paths the diagnostics equal the property's "
+             "expectation (nothing located in a skipped file, nothing influenced by it, test files never get TONL), and each named deviation (one "
+             "reader forgetting the filter, filter evaluated on the first file only, TONL in tests) violates it. Every scenario is concretised and "
+             "analysed under its configuration (one harness process per configuration), a sample by the real binary.",
+        note="Trusted: TLC, lib/gen_files.py, the in-process driver (in-package test files are plain files there; the real drivers add test variants).",
+        technique="TLA+ model (Files.tla) checked by TLC; replay of every (file class, content, configuration) scenario into the real analyzers",
+        design="5/C14"),
 }
 
 NOT_YET = "check not built yet in this session; the property is in scope of the TLA+ specification (see DESIGN.md section 5) and will be claimed when its replay binding is in place"
